@@ -557,9 +557,16 @@ static void run_stft(Json& js, vh::Rng& rng, long budget) {
                     }
                     std::vector<arr_cmplx> Y;
                     arr_real xr;
+                    // the convenience overloads (periodic Hann, overlap nfft/2) stand for exactly these explicit arguments
+                    const bool conv = std::string(WN[wk]) == "hann" && !sym && ov == nfft / 2;
                     const char* o = vh::outcome([&] {
-                        Y = stft(x, win, ov, nfft, range);
-                        xr = istft(Y, win, ov, nfft, range, om);
+                        if (conv) {
+                            Y = stft(x, nfft, range);
+                            xr = istft(Y, nfft, range, om);
+                        } else {
+                            Y = stft(x, win, ov, nfft, range);
+                            xr = istft(Y, win, ov, nfft, range, om);
+                        }
                     });
                     // accumulated window weight per output sample, in long double
                     const int nseg = (int)Y.size();
